@@ -252,6 +252,26 @@ class Norm:
             return ('marker_query', a[1])
         if name == "provwasm_std::types::provenance::attribute::v1::AttributeQuerier::<'a, Q>::attributes":
             return ('attr_query', a[1])
+        # it.fold(0, |acc, e| acc + e)  is  it.sum()  (both abort on overflow for the unsigned amount types used here)
+        if name.endswith('::fold') and 'Iterator' in name and len(a) == 3 and a[1] == ('int', 0) and a[2][0] == 'lambda':
+            live = [(fs, r) for fs, r in a[2][3] if r != ('abort',)]
+            b0, b1 = ('bound', a[2][1], 0), ('bound', a[2][1], 1)
+            if len(live) == 1 and not live[0][0] and live[0][1] in (('add', b0, b1), ('add', b1, b0)):
+                return ('call', 'std::iter::Iterator::sum', (a[0],))
+        # x.iter().map(|e| e) with an identity closure (as_str / to_string / clone of a string-like element are erased) is x.iter()
+        if name.endswith('Iterator::map') and len(a) == 2 and a[0][0] == 'iter' and a[1][0] == 'lambda' and len(a[1][3]) == 1 and not a[1][3][0][0] \
+                and a[1][3][0][1] == ('bound', a[1][1], 0):
+            return a[0]
+        # x.iter().any(|e| e == y)  is  x.contains(&y);  x.iter().all(|e| e != y)  is its negation (closure: one outcome, no branching, no effects)
+        if (name.endswith('::any') or name.endswith('::all')) and 'Iterator' in name and len(a) == 2 and a[0][0] == 'iter' and a[1][0] == 'lambda' \
+                and len(a[1][3]) == 1 and not a[1][3][0][0]:
+            r = a[1][3][0][1]; b = ('bound', a[1][1], 0); neg = False
+            if r[0] == 'not': r = r[1]; neg = True
+            if r[0] == 'eq' and b in r[1:] and neg == name.endswith('::all'):
+                other = r[2] if r[1] == b else r[1]
+                if 'bound' not in repr(other):
+                    c = ('contains', a[0][1], other)
+                    return ('not', c) if neg else c
         if name == 'core::slice::<impl [T]>::contains': return ('contains', a[0], a[1])
         if name == 'std::collections::HashSet::<T, S, A>::contains': return ('contains', a[0], a[1])
         if name == 'std::collections::HashSet::<T, S, A>::is_subset': return ('is_subset', a[0], a[1])
@@ -268,7 +288,10 @@ class Norm:
         k = f[0]
         if k == 'is': return ('is', self(f[1]), f[2])
         if k == 'isnot': return ('isnot', self(f[1]), f[2])
-        if k == 'val': return ('val', self(f[1]), f[2])
+        if k == 'val':
+            t = self(f[1]); v = f[2]
+            while t[0] == 'not' and isinstance(v, bool): t = t[1]; v = not v      # a normal form may introduce a negation (all(|e| e != y))
+            return ('val', t, v)
         if k == 'nval': return ('nval', self(f[1]), f[2])
         if k == 'or': return ('or', tuple(tuple(self.fact(x) for x in alt) for alt in f[1]), f[2] if len(f) > 2 else None)
         return f
